@@ -304,10 +304,10 @@ func norm(g orb.Geometry) orb.Geometry {
 	return g
 }
 
-func modelPolygon(s orb.Simplifier, p orb.Polygon) orb.Polygon {
+func modelPolygon(mk func() orb.Simplifier, p orb.Polygon) orb.Polygon {
 	out := orb.Polygon{}
 	for i, r := range p {
-		sr := orb.Ring(apply(s, r, true))
+		sr := orb.Ring(apply(mk(), r, true))
 		if i != 0 && len(sr) <= 2 {
 			continue // inner ring reduced to <= 2 points is dropped
 		}
@@ -318,9 +318,11 @@ func modelPolygon(s orb.Simplifier, p orb.Polygon) orb.Polygon {
 
 // modelGeom composes the expected result of the generic entry point from the
 // typed LineString/Ring results (judged separately) and the dropping rules of
-// helpers.go. keepEmptyPoly selects whether a polygon without rings inside a
+// helpers.go. Every line and ring is simplified by a FRESH simplifier (mk), so
+// that an implementation whose simplifier value remembers something from the
+// previous line (e.g. a cached default minimum count) cannot agree with it. keepEmptyPoly selects whether a polygon without rings inside a
 // multi-polygon stays (either is accepted).
-func modelGeom(s orb.Simplifier, g orb.Geometry, keepEmptyPoly bool) orb.Geometry {
+func modelGeom(mk func() orb.Simplifier, g orb.Geometry, keepEmptyPoly bool) orb.Geometry {
 	switch v := g.(type) {
 	case nil:
 		return nil
@@ -329,13 +331,13 @@ func modelGeom(s orb.Simplifier, g orb.Geometry, keepEmptyPoly bool) orb.Geometr
 	case orb.MultiPoint:
 		return orb.MultiPoint(clonePts(v))
 	case orb.LineString:
-		out := orb.LineString(apply(s, v, false))
+		out := orb.LineString(apply(mk(), v, false))
 		if len(out) == 0 {
 			return nil
 		}
 		return out
 	case orb.Ring:
-		out := orb.Ring(apply(s, v, true))
+		out := orb.Ring(apply(mk(), v, true))
 		if len(out) == 0 {
 			return nil
 		}
@@ -346,11 +348,11 @@ func modelGeom(s orb.Simplifier, g orb.Geometry, keepEmptyPoly bool) orb.Geometr
 		}
 		out := make(orb.MultiLineString, len(v))
 		for i := range v {
-			out[i] = orb.LineString(apply(s, v[i], false))
+			out[i] = orb.LineString(apply(mk(), v[i], false))
 		}
 		return out
 	case orb.Polygon:
-		out := modelPolygon(s, v)
+		out := modelPolygon(mk, v)
 		if len(out) == 0 {
 			return nil
 		}
@@ -358,7 +360,7 @@ func modelGeom(s orb.Simplifier, g orb.Geometry, keepEmptyPoly bool) orb.Geometr
 	case orb.MultiPolygon:
 		out := orb.MultiPolygon{}
 		for _, p := range v {
-			sp := modelPolygon(s, p)
+			sp := modelPolygon(mk, p)
 			if len(sp) == 0 {
 				if keepEmptyPoly {
 					out = append(out, sp)
@@ -380,7 +382,7 @@ func modelGeom(s orb.Simplifier, g orb.Geometry, keepEmptyPoly bool) orb.Geometr
 		}
 		out := make(orb.Collection, len(v))
 		for i := range v {
-			out[i] = modelGeom(s, v[i], keepEmptyPoly)
+			out[i] = modelGeom(mk, v[i], keepEmptyPoly)
 		}
 		return out
 	}
@@ -454,24 +456,88 @@ func leaves(g orb.Geometry, f func(pts []orb.Point, ring bool)) {
 	}
 }
 
-func expectGeneric(s orb.Simplifier, what string, g, got orb.Geometry) error {
-	okA, diffA := gen.SameBits(norm(got), norm(modelGeom(s, g, false)))
+func expectGeneric(mk func() orb.Simplifier, what string, g, got orb.Geometry) error {
+	okA, diffA := gen.SameBits(norm(got), norm(modelGeom(mk, g, false)))
 	if okA {
 		return nil
 	}
-	if okB, _ := gen.SameBits(norm(got), norm(modelGeom(s, g, true))); okB {
+	if okB, _ := gen.SameBits(norm(got), norm(modelGeom(mk, g, true))); okB {
 		return nil
 	}
 	return fmt.Errorf("%s of %s: result differs from the per-line results composed with the dropping rules (%s): in=%s got=%s", what, gen.KindOf(g), diffA, gen.Canon(g), gen.Canon(got))
 }
 
+// ringsOf lists the rings of a Ring / Polygon / MultiPolygon in order.
+func ringsOf(g orb.Geometry) [][]orb.Point {
+	var out [][]orb.Point
+	switch v := g.(type) {
+	case orb.Ring:
+		out = append(out, v)
+	case orb.Polygon:
+		for _, r := range v {
+			out = append(out, r)
+		}
+	case orb.MultiPolygon:
+		for _, p := range v {
+			for _, r := range p {
+				out = append(out, r)
+			}
+		}
+	}
+	return out
+}
+
+// checkGenericMin asserts the minimum-count clause directly on every ring that
+// comes out of the generic entry point (Visvalingam only): each output ring
+// must be, in order, the simplification of one of the input rings (first and
+// last kept, subsequence) with at least min(len(in), requested or default 3/4)
+// vertices. Rings may be dropped in between, so output rings are matched
+// greedily to the earliest input ring they fit; collections keep their length,
+// so members are compared position by position.
+func checkGenericMin(sp Spec, g, got orb.Geometry) error {
+	if sp.Algo != "vis" && sp.Algo != "visthr" && sp.Algo != "viskeep" {
+		return nil
+	}
+	if c, ok := g.(orb.Collection); ok {
+		gc, ok := got.(orb.Collection)
+		if !ok || len(gc) != len(c) {
+			return nil // structure is judged by expectGeneric
+		}
+		for i := range c {
+			if err := checkGenericMin(sp, c[i], gc[i]); err != nil {
+				return err
+			}
+		}
+		return nil
+	}
+	ins, outs := ringsOf(g), ringsOf(got)
+	j := 0
+	for _, o := range outs {
+		for ; j < len(ins); j++ {
+			min := sp.Keep
+			if min == 0 || sp.Algo == "visthr" {
+				min = defaultMin(true, ins[j])
+			}
+			if len(o) >= minInt(len(ins[j]), min) && checkBasic("", ins[j], o) == nil {
+				break
+			}
+		}
+		if j == len(ins) {
+			return fmt.Errorf("%s.Simplify of %s: output ring %v (%d vertices) is not one of the input rings simplified down to no fewer than min(len, minimum count 3 open / 4 closed or the requested one) vertices: in=%s got=%s", sp.String(), gen.KindOf(g), short(o), len(o), gen.Canon(g), gen.Canon(got))
+		}
+		j++
+	}
+	return nil
+}
+
 func checkGeom(c GeomCase) (info, error) {
 	var inf info
 	g := c.G.V
-	s := c.S.make()
+	mk := c.S.make // a fresh simplifier value per call
+	s := mk()      // the one value under test
 	name := c.S.String()
 
-	// every line and ring on its own: the clauses of the statement
+	// every line and ring on its own (fresh simplifier each): the clauses of the statement
 	var leafErr error
 	leaves(g, func(pts []orb.Point, ring bool) {
 		if leafErr == nil {
@@ -482,26 +548,30 @@ func checkGeom(c GeomCase) (info, error) {
 		return inf, leafErr
 	}
 
-	// generic entry point = composition of the per-line results
+	// generic entry point = composition of the per-line results of fresh simplifiers
 	got := s.Simplify(gen.DeepCopy(g))
-	if err := expectGeneric(s, name+".Simplify", g, got); err != nil {
+	if err := checkGenericMin(c.S, g, got); err != nil {
+		return inf, err
+	}
+	if err := expectGeneric(mk, name+".Simplify", g, got); err != nil {
 		return inf, err
 	}
 	// = typed method of the kind
-	if tg, ok := typed(s, g); ok {
+	if tg, ok := typed(mk(), g); ok {
 		if same, diff := gen.SameBits(got, tg); !same {
 			return inf, fmt.Errorf("%s: Simplify and the typed %s method disagree (%s): in=%s generic=%s typed=%s", name, gen.KindOf(g), diff, gen.Canon(g), gen.Canon(got), gen.Canon(tg))
 		}
 	}
 	// Douglas-Peucker is idempotent on every kind
 	if c.S.Algo == "dp" {
-		again := s.Simplify(gen.DeepCopy(got))
+		again := mk().Simplify(gen.DeepCopy(got))
 		if same, diff := gen.SameBits(norm(again), norm(got)); !same {
 			return inf, fmt.Errorf("%s.Simplify is not idempotent on %s (%s): in=%s once=%s twice=%s", name, gen.KindOf(g), diff, gen.Canon(g), gen.Canon(got), gen.Canon(again))
 		}
 	}
 
-	// mvt.Layers.Simplify = per-feature Simplify, nil results dropped, order kept
+	// mvt.Layers.Simplify (ONE simplifier value for all features) = per-feature
+	// Simplify by a fresh simplifier, nil results dropped, order kept
 	all := append([]gen.G{c.G}, c.More...)
 	var layers mvt.Layers
 	var want [][]orb.Geometry
@@ -517,7 +587,11 @@ func checkGeom(c GeomCase) (info, error) {
 			f := geojson.NewFeature(gen.DeepCopy(fg.V))
 			f.ID = i
 			l.Features = append(l.Features, f)
-			if e := s.Simplify(gen.DeepCopy(fg.V)); e != nil {
+			e := mk().Simplify(gen.DeepCopy(fg.V))
+			if err := expectGeneric(mk, name+".Simplify", fg.V, e); err != nil {
+				return inf, err
+			}
+			if e != nil {
 				w = append(w, e)
 				ids = append(ids, i)
 			}
@@ -536,9 +610,101 @@ func checkGeom(c GeomCase) (info, error) {
 				return inf, fmt.Errorf("mvt.Layers.Simplify(%s): layer %d feature %d has id %v, want %d", name, li, k, f.ID, wantID[li][k])
 			}
 			if same, diff := gen.SameBits(f.Geometry, want[li][k]); !same {
-				return inf, fmt.Errorf("mvt.Layers.Simplify(%s): layer %d feature %d differs from Simplify of its geometry (%s): got=%s want=%s", name, li, k, diff, gen.Canon(f.Geometry), gen.Canon(want[li][k]))
+				return inf, fmt.Errorf("mvt.Layers.Simplify(%s): layer %d feature %d differs from what a fresh simplifier returns for its geometry (%s): got=%s want=%s", name, li, k, diff, gen.Canon(f.Geometry), gen.Canon(want[li][k]))
 			}
 		}
+	}
+	if err := checkFields(c.S, s); err != nil {
+		return inf, err
+	}
+	return inf, nil
+}
+
+// checkFields: using a simplifier must not change its exported configuration.
+func checkFields(sp Spec, used orb.Simplifier) error {
+	fresh := sp.make()
+	switch u := used.(type) {
+	case *simplify.DouglasPeuckerSimplifier:
+		f := fresh.(*simplify.DouglasPeuckerSimplifier)
+		if math.Float64bits(u.Threshold) != math.Float64bits(f.Threshold) {
+			return fmt.Errorf("%s: Threshold changed from %v to %v by use", sp.String(), f.Threshold, u.Threshold)
+		}
+	case *simplify.RadialSimplifier:
+		f := fresh.(*simplify.RadialSimplifier)
+		if math.Float64bits(u.Threshold) != math.Float64bits(f.Threshold) || u.DistanceFunc == nil {
+			return fmt.Errorf("%s: Threshold/DistanceFunc changed by use (threshold %v -> %v, DistanceFunc nil: %v)", sp.String(), f.Threshold, u.Threshold, u.DistanceFunc == nil)
+		}
+	case *simplify.VisvalingamSimplifier:
+		f := fresh.(*simplify.VisvalingamSimplifier)
+		if math.Float64bits(u.Threshold) != math.Float64bits(f.Threshold) || u.ToKeep != f.ToKeep {
+			return fmt.Errorf("%s: configuration changed by use: Threshold %v -> %v, ToKeep %d -> %d (a default minimum count must be resolved per geometry, not stored)", sp.String(), f.Threshold, u.Threshold, f.ToKeep, u.ToKeep)
+		}
+	default:
+		return fmt.Errorf("%s: unexpected simplifier type %T", sp.String(), used)
+	}
+	return nil
+}
+
+// ---------------------------------------------------------------- history case
+
+// HistCase is a sequence of geometries pushed through ONE simplifier value.
+type HistCase struct {
+	S     Spec       `json:"spec"`
+	Steps []HistStep `json:"steps"`
+}
+
+// HistStep is one call: the generic entry point or the typed method of the kind.
+type HistStep struct {
+	G   gen.G  `json:"g"`
+	Via string `json:"via"` // generic | typed
+}
+
+func runStep(s orb.Simplifier, st HistStep) orb.Geometry {
+	g := gen.DeepCopy(st.G.V)
+	if st.Via == "typed" {
+		switch v := g.(type) {
+		case orb.LineString:
+			return s.LineString(v)
+		case orb.MultiLineString:
+			return s.MultiLineString(v)
+		case orb.Ring:
+			return s.Ring(v)
+		case orb.Polygon:
+			return s.Polygon(v)
+		case orb.MultiPolygon:
+			return s.MultiPolygon(v)
+		case orb.Collection:
+			return s.Collection(v)
+		}
+	}
+	return s.Simplify(g)
+}
+
+// checkHist: every result of the reused simplifier is bit-equal to what a
+// fresh simplifier with the same parameters returns for that geometry alone
+// (itself judged against the per-line composition), and the exported fields
+// are unchanged afterwards.
+func checkHist(c HistCase) (info, error) {
+	var inf info
+	s := c.S.make()
+	for i, st := range c.Steps {
+		got := runStep(s, st)
+		want := runStep(c.S.make(), st)
+		if same, diff := gen.SameBits(got, want); !same {
+			return inf, fmt.Errorf("%s reused: call %d (%s, %s) returns something else than a fresh simplifier with the same parameters (%s): the result depends on what the simplifier handled before: in=%s reused=%s fresh=%s", c.S.String(), i, st.Via, gen.KindOf(st.G.V), diff, gen.Canon(st.G.V), gen.Canon(got), gen.Canon(want))
+		}
+		if st.Via == "generic" {
+			if err := checkGenericMin(c.S, st.G.V, got); err != nil {
+				return inf, err
+			}
+			if err := expectGeneric(c.S.make, c.S.String()+".Simplify", st.G.V, got); err != nil {
+				return inf, err
+			}
+		}
+		leaves(st.G.V, func(pts []orb.Point, ring bool) { inf.note(c.S.Algo, pts, apply(c.S.make(), pts, ring)) })
+	}
+	if err := checkFields(c.S, s); err != nil {
+		return inf, err
 	}
 	return inf, nil
 }
@@ -777,6 +943,7 @@ func assumptions() {
 	stats.Assume("tolerances: distances t(1+1e-9)+1e-9(1+max|coordinate|); doubled areas a(1+1e-9)+1e-9 x diameter^2; the radial clause is exact (the check calls the same distance function as the simplifier)")
 	stats.Assume("extensions beyond the literal statement, from the package documentation: (a) Douglas-Peucker keeps a vertex only where the recursion must split (farthest vertex beyond the threshold), (b) radial drops a vertex only when it is within the threshold of the last kept vertex, (c) Visvalingam removes vertices in order of smallest effective area (area raised to that of a removed neighbour) and stops at the first effective area above the threshold; (a) and (c) are judged only on lines whose vertices are pairwise distinct (except the closing vertex), borderline values and ties are accepted either way")
 	stats.Assume("radial distance functions: planar.Distance, geo.Distance (lon/lat inputs only), a Manhattan distance defined in the harness")
+	stats.Assume("history: a simplifier value is used from one goroutine at a time; every result of a reused value must be bit-equal to the result of a fresh value with the same parameters, and Threshold / ToKeep / DistanceFunc must be unchanged by use")
 	stats.Assume("generic entry point: an empty or nil MultiPoint may come back as nil or as itself; a polygon without rings inside a multi-polygon may be dropped or kept; collection members are never nil interfaces")
 }
 
@@ -867,7 +1034,34 @@ func genLeaf(t *rapid.T) []orb.Point {
 }
 
 var geomKinds = []string{"Polygon", "LineString", "Ring", "MultiLineString", "MultiPolygon", "Collection", "Point", "MultiPoint", "Bound",
-	"Polygon", "LineString", "Ring", "MultiLineString", "MultiPolygon", "Collection", "MultiPolygon"}
+	"Polygon", "LineString", "Ring", "MultiLineString", "MultiPolygon", "Collection", "MultiPolygon",
+	"MixedCollection", "MixedPolygon", "MixedMultiPolygon"}
+
+// richLeaf is a line of 5..10 vertices, closed or open as asked: long enough
+// that a large threshold drives it down to the minimum count of its kind.
+func richLeaf(t *rapid.T, closed bool) []orb.Point {
+	pts, _, _ := genPts(t, 10)
+	for i := len(pts); i < 5; i++ {
+		pts = append(pts, orb.Point{float64(i), float64((i * i) % 3)})
+	}
+	n := len(pts)
+	if closed {
+		pts[n-1] = pts[0]
+	} else if pts[n-1] == pts[0] {
+		pts[n-1] = orb.Point{pts[0][0] + 1, pts[0][1] + 1}
+	}
+	return pts
+}
+
+// mixedPolygon has rings with different default minimum counts in the order
+// drawn (e.g. an open ring before a closed one).
+func mixedPolygon(t *rapid.T) orb.Polygon {
+	p := orb.Polygon{}
+	for i := rapid.IntRange(2, 3).Draw(t, "rings"); i > 0; i-- {
+		p = append(p, orb.Ring(richLeaf(t, rapid.Bool().Draw(t, "closed"))))
+	}
+	return p
+}
 
 func genGeom(t *rapid.T, depth int) orb.Geometry {
 	k := geomKinds[rapid.IntRange(0, len(geomKinds)-1).Draw(t, "kind")]
@@ -879,6 +1073,30 @@ func genGeom(t *rapid.T, depth int) orb.Geometry {
 	}
 	state := rapid.IntRange(0, 11).Draw(t, "state") // 0 nil slice, 1 empty, else populated
 	switch k {
+	case "MixedCollection":
+		// kinds with different default minimum counts inside one generic call
+		c := orb.Collection{}
+		for i := rapid.IntRange(2, 4).Draw(t, "n"); i > 0; i-- {
+			switch rapid.IntRange(0, 3).Draw(t, "member") {
+			case 0:
+				c = append(c, orb.LineString(richLeaf(t, false)))
+			case 1:
+				c = append(c, orb.Ring(richLeaf(t, true)))
+			case 2:
+				c = append(c, orb.Ring(richLeaf(t, false)))
+			default:
+				c = append(c, mixedPolygon(t))
+			}
+		}
+		return c
+	case "MixedPolygon":
+		return mixedPolygon(t)
+	case "MixedMultiPolygon":
+		m := orb.MultiPolygon{}
+		for i := rapid.IntRange(1, 3).Draw(t, "n"); i > 0; i-- {
+			m = append(m, mixedPolygon(t))
+		}
+		return m
 	case "Point":
 		return small()
 	case "Bound":
@@ -1021,6 +1239,83 @@ func TestPropGeom(t *testing.T) {
 	})
 }
 
+// ---------------------------------------------------------------- TestPropHistory
+
+func genHistSpec(t *rapid.T, pts []orb.Point) Spec {
+	s := genSpec(t, pts)
+	s.Algo = rapid.SampledFrom([]string{"visthr", "vis", "viskeep", "dp", "radial", "visthr", "vis"}).Draw(t, "halgo")
+	switch s.Algo {
+	case "radial":
+		if s.DF == "" {
+			s.DF = "planar"
+		}
+		v, _ := genDist(t, "ht", pts, distFunc(s.DF))
+		s.T = gen.F(v)
+	case "dp":
+		v, _ := genDist(t, "ht", pts, planar.Distance)
+		s.T = gen.F(v)
+	default:
+		v, _ := genArea(t, "ht", pts)
+		if rapid.Bool().Draw(t, "hbig") {
+			d := diamOf(pts)
+			v = 3*d*d + 1 // large enough to drive every line to its minimum count
+		}
+		s.T = gen.F(v)
+	}
+	s.Keep = 0
+	if (s.Algo == "vis" || s.Algo == "viskeep") && rapid.Bool().Draw(t, "hkeep") {
+		s.Keep = rapid.IntRange(2, 8).Draw(t, "keep")
+	}
+	if s.Algo != "radial" {
+		s.DF = ""
+	}
+	return s
+}
+
+// TestPropHistory: 2..6 geometries of mixed kinds through ONE simplifier value.
+func TestPropHistory(t *testing.T) {
+	assumptions()
+	stats.Check(t, 40000, 1000000, func(rt *rapid.T) {
+		var c HistCase
+		var pool []orb.Point
+		for i := rapid.IntRange(2, 6).Draw(rt, "steps"); i > 0; i-- {
+			var g orb.Geometry
+			switch rapid.IntRange(0, 7).Draw(rt, "stepkind") {
+			case 0:
+				g = orb.LineString(richLeaf(rt, false))
+			case 1:
+				g = orb.Ring(richLeaf(rt, true))
+			case 2:
+				g = orb.Ring(richLeaf(rt, false))
+			case 3:
+				g = mixedPolygon(rt)
+			default:
+				g = genGeom(rt, 1)
+			}
+			via := rapid.SampledFrom([]string{"generic", "generic", "typed"}).Draw(rt, "via")
+			c.Steps = append(c.Steps, HistStep{G: gen.G{V: g}, Via: via})
+			pool = append(pool, allPoints(g)...)
+		}
+		c.S = genHistSpec(rt, pool)
+		stats.Class("history algo:" + c.S.Algo)
+		if c.S.Keep == 0 && (c.S.Algo == "vis" || c.S.Algo == "viskeep" || c.S.Algo == "visthr") {
+			stats.Class("history: Visvalingam with default minimum count")
+		}
+		stats.Class(fmt.Sprintf("history steps:%d", len(c.Steps)))
+		stats.Try(rt, "TestPropHistory", c, func() error {
+			inf, err := checkHist(c)
+			if err == nil && len(inf.nontrivial) > 0 {
+				stats.Class("history nontrivial")
+				stats.NonTrivial(gen.JSON(c))
+				if stats.WantSample("history:" + c.S.Algo) {
+					stats.Sample("history:"+c.S.Algo, c)
+				}
+			}
+			return err
+		})
+	})
+}
+
 // ---------------------------------------------------------------- enumerations
 
 var enumTD = []float64{0, 0.5, math.Sqrt2 / 2, 1, math.Sqrt2, 2, 3}
@@ -1135,6 +1430,17 @@ func TestReplay(t *testing.T) {
 	name, raw, ok := stats.Replaying()
 	if !ok {
 		t.Skip("no replay file")
+	}
+	if name == "TestPropHistory" {
+		var c HistCase
+		if e := json.Unmarshal(raw, &c); e != nil {
+			t.Fatal(e)
+		}
+		stats.TryT(t, "replayed case still fails: "+name, c, func() error {
+			_, e := checkHist(c)
+			return e
+		})
+		return
 	}
 	if name == "TestPropGeom" {
 		var c GeomCase
